@@ -212,8 +212,20 @@ def r4_tail_call_height(ctx):
     ctx.floors[:] = [f for f in ctx.floors if f["rule"] != "R-C16-4"]
 
 
+OPTIONAL_FNS = ("Executor::extract_heap_data_many", "Executor::inject_heap_data_many")
+
+
+def r5_messages_leave_no_dead_slots(ctx):
+    """a loop that receives (or sends itself) messages must not grow the binary heap: every blob travels once per message, so every slot the receiver
+    allocates is referenced by the delivered value and dies with it — shared with R-C06-6 (distinct blobs)"""
+    from rules import c06
+    ctx.rule("R-C16-5", "bounded heap under message loops: the heap indices whose blobs accompany a value across a process boundary are distinct (set / dedup) — "
+                        "a blob shipped twice leaves an unreferenced slot at count 0 that is never reclaimed (shared with R-C06-6)")
+    c06.distinct_blobs(ctx, "R-C16-5")
+
+
 def run(ctx):
-    ctx.run_rules([r1_tail_call_handler, r2_strip_keeps_tail_position, r3_heap_bounded, r4_tail_call_height])
+    ctx.run_rules([r1_tail_call_handler, r2_strip_keeps_tail_position, r3_heap_bounded, r4_tail_call_height, r5_messages_leave_no_dead_slots])
     return (
         "Decides the mechanism only: the TailCall handler pushes no frame (also transitively), truncates locals on every non-error path before "
         "pushing the new ones, overwrites the top frame in place with the same locals_base; frames are pushed at exactly three reviewed sites; "
